@@ -114,6 +114,7 @@ class Engine(object):
         self.externals = {}
         self.specns = {}
         self.fm_defs = {}
+        self.comp_memo = {}
         self.stats = {'feas_checks': 0, 'paths': 0}
         self.worklist = []
         self.current = None
@@ -188,6 +189,24 @@ class Engine(object):
                 dom = z3.SetAdd(dom, z3.StringVal(k))
                 arr = z3.Store(arr, z3.StringVal(k), vt.to_z(x, ctx))
             return VMap(dom, arr, kt, vt)
+
+        @self.spec('split_at')
+        def split_at(I, ctx, seq, idx):
+            """(seq[:idx], seq[idx:]) in decomposition form: two fresh sequences with
+            seq == pre ++ post and len(pre) == the clamped index."""
+            q = I._as_seq(ctx, I.resolve(ctx, seq))
+            z, et = q
+            n = z3.Length(z)
+            idx = I.resolve(ctx, idx)
+            iz = TInt.to_z(idx)
+            pos = z3.If(iz < 0, z3.If(n + iz < 0, z3.IntVal(0), n + iz), z3.If(iz > n, n, iz))
+            pre = Z.fresh('split_pre', z.sort())
+            post = Z.fresh('split_post', z.sort())
+            p = Z.fresh('split_pos', Z.Int)
+            ctx.assume(p == pos)
+            ctx.assume(z == z3.Concat(pre, post))
+            ctx.assume(z3.Length(pre) == p)
+            return VTuple([VSeq(pre, et), VSeq(post, et)])
 
         @self.spec('implies')
         def implies(I, ctx, a, b):
@@ -373,6 +392,11 @@ class Engine(object):
             isnone = ctx.attr_read(key + '?none', Z.Bool, objz)
             inner = self.read_typed_attr(ctx, key, t.t, objz)
             return VOpt(isnone, inner)
+        if isinstance(t, TMap):
+            ks, vs = t.kt.zsort, t.vt.zsort
+            dom = ctx.attr_read(key + '#dom', Z.SetSort(ks), objz)
+            arr = ctx.attr_read(key + '#arr', z3.ArraySort(ks, vs), objz)
+            return VMap(dom, arr, t.kt, t.vt)
         if t.zsort is None:
             raise ContractError('attribute type %r of %s is not embeddable' % (t, key))
         term = ctx.attr_read(key, t.zsort, objz)
